@@ -85,7 +85,9 @@ def run(tier, replay=None):
     out.add_tlc(r1)
     out.add_tlc(r2)
     flow = list(dict.fromkeys(c["text"] for c in r2.tagged("CASE")))
-    lines = [c["text"] for c in r1.tagged("CASE")]
+    # (a missing include reads differently through the two readers - "IO Error" vs "File not found" -, which is
+    # a difference of the harness's in-memory reader, not of the channels: such lines are C15's business)
+    lines = [c["text"] for c in r1.tagged("CASE") if ".include" not in c["text"]]
     rr = rng("c18")
     rr.shuffle(lines)
     progs += [{"main.s": t} for t in flow] + [{"main.s": t} for t in lines[: (40 if tier == "quick" else 800)]]
